@@ -591,3 +591,15 @@ def _isclose(eng, node, a, b, rtol=None, atol=None, rel_tol=None, abs_tol=None):
     d = z3.If(x - y >= 0, x - y, y - x)
     ay = z3.If(y >= 0, y, -y)
     return d <= ops.real(at) + ops.real(rt) * ay
+
+
+@reg("numpy.delete")
+def _np_delete(eng, node, arr, index, axis=None):
+    """np.delete(rows, i, axis=0) on an (n,3) array held as a list of rows: the row at index i is removed"""
+    if not isinstance(arr, SList) or axis != 0:
+        raise Unsupported("np.delete form")
+    i = I(index)
+    eng.may_raise("IndexError", b_not(z3.And(i >= -arr.n, i < arr.n)), node, "np.delete index")
+    i = z3.If(i < 0, i + arr.n, i)
+    k = z3.Int("_del")
+    return SList(arr.t, arr.n - 1, [z3.Lambda([k], z3.If(k < i, c[k], c[k + 1])) for c in arr.comps])
